@@ -180,6 +180,15 @@ Mutate(e) ==
      /\ viol' = viol \cup (IF WellFormed(G) /\ e.newcls \notin {cls[k] : k \in DOMAIN cls} THEN {} ELSE {"H:malformed-input"})
   /\ UNCHANGED <<strOf, canonOf, rootPart, sers, strs, mols, results>>
 
+\* a library call left scratch data (attributes that are not chemically meaningful) on an object: the session's copy of the
+\* object is refreshed; it is still the same molecule (checked), so its class and provenance stay
+Touch(e) ==
+  /\ e.op = "touch" /\ Known(objs, e.obj)
+  /\ LET G == objs[e.obj]  H == GraphOf(e.g)  good == IdentityEq(G, H) /\ G.mattr = H.mattr /\ G.ord = H.ord IN
+     /\ objs' = IF good THEN [objs EXCEPT ![e.obj] = H] ELSE objs
+     /\ viol' = viol \cup (IF good THEN {} ELSE {"H:touch-changes-the-molecule"})
+  /\ UNCHANGED <<cls, root, prov, strOf, canonOf, rootPart, sers, strs, mols, results>>
+
 \* two objects are stated to be the same molecule for a reason the specification verified elsewhere
 \* (e.g. both were read from texts whose decoded molecules agree): classes are merged
 SameMol(e) ==
@@ -236,7 +245,7 @@ CanonClauses(e, G, R) ==
   \* C04: same molecule, same labelled graph
   \cup (IF Known(canonOf, c) /\ canonOf[c] # Summary(R) THEN {"C04:labelled-graph-differs-between-descriptions"} ELSE {})
   \* C13
-  \cup (IF ClassesDense(R.part) THEN {} ELSE {"C13:class-numbers-not-0..k"})
+  \cup (IF ClassesDense(R.part) THEN {} ELSE {"R:class-numbers-not-0..k"})         \* the statement does not fix how classes are numbered
   \cup (IF ColourHomogeneous(R, R.part) THEN {} ELSE {"C13:class-mixes-colours"})
   \cup (IF Equitable(R, R.part) THEN {} ELSE {"C13:not-equitable"})
   \cup (IF traceable /\ Known(rootPart, c) /\ rootPart[c] # rp THEN {"C13:class-depends-on-numbering"} ELSE {})
@@ -484,7 +493,11 @@ WriteClauses(e, G) ==
           \cup (IF Len(D.atoms) = n /\ \E i \in 1..n : LET a == G.ord[i] IN
                      <<D.atoms[i].sym, D.atoms[i].chg, D.atoms[i].rad, D.atoms[i].mass>> # <<G.sym[a], G.chg[a], G.rad[a], G.mass[a]>>
                   THEN {"C09:atom-attributes-or-order"} ELSE {})
-          \cup (IF Len(D.atoms) = n /\ \E i \in 1..n : <<D.atoms[i].x, D.atoms[i].y, D.atoms[i].z>> # <<e.xyz6[i][1], e.xyz6[i][2], e.xyz6[i][3]>>
+          \* e.six[literal] = the literal rounded to six decimals (exact decimal arithmetic, done by the harness); a writer may
+          \* print more decimals than six, never a value that differs in the first six
+          \cup (IF Len(D.atoms) = n /\ \E i \in 1..n : \E k \in 1..3 :
+                       LET lit == <<D.atoms[i].x, D.atoms[i].y, D.atoms[i].z>>[k] IN
+                       lit \notin DOMAIN e.six \/ e.six[lit] # e.xyz6[i][k]
                   THEN {"C09:coordinates-not-to-six-decimals"} ELSE {})
           \cup (IF Len(D.atoms) = n /\ {<<{G.ord[b[1] + 1], G.ord[b[2] + 1]}, b[3]>> : b \in D.bonds}
                                       # {<<{e.bonds[j][1] + 1, e.bonds[j][2] + 1}, e.bonds[j][3]>> : j \in 1..Len(e.bonds)}
@@ -494,7 +507,7 @@ WriteText(e) ==
   /\ viol' = viol \cup WriteClauses(e, objs[e.arg])
   /\ UNCHANGED <<objs, cls, root, prov, strOf, canonOf, rootPart, sers, strs, mols, results>>
 
-Step(e) == \/ Input(e) \/ Derive(e) \/ Mutate(e) \/ SameMol(e) \/ Canonicalize(e) \/ Automorphism(e) \/ Serialize(e)
+Step(e) == \/ Input(e) \/ Derive(e) \/ Mutate(e) \/ Touch(e) \/ SameMol(e) \/ Canonicalize(e) \/ Automorphism(e) \/ Serialize(e)
            \/ Raised(e) \/ Completed(e) \/ Parse(e) \/ ReadText(e) \/ SameText(e) \/ WriteText(e) \/ StringIn(e) \/ Respell(e) \/ Result(e) \/ Permute(e)
 
 \* ------------------------------------------------------------------ the properties, as state predicates
